@@ -53,6 +53,36 @@ def run(ctx):
     G5.TAB_TEXT = False
     texts += ['Files: *\nCopyright: x\nLicense: y\nFoo: a\n b\n', 'Format: f\nX-A: a\n b\n .\n  c\n\nFiles: *\nCopyright: 2019 x\nLicense: MIT\n t\n']
     fails = ctx.prop('prop:render-fixpoint', texts, p_fixpoint)
+    # large documents: many small paragraphs with a line end, a separator or a marker on every block boundary; and
+    # single paragraphs beyond 1 MiB (a license text of 30000 lines, a Files paragraph of 90000 copyright lines whose
+    # rendering is wider than its source)
+    # (without the texts that hold truly empty lines inside a value: those are documents of C12, not of the DEP-5 grammar)
+    large = [t for t in _copy.large_copyright_texts(rng, ctx.quick())[::2] if '\n\n after the blank' not in t and '\r\n\r\n after the blank' not in t]
+    head = 'Format: https://www.debian.org/doc/packaging-manuals/copyright-format/1.0/\n\n'
+    lic = '\n'.join([' line %d of a long license text with some words' % i if i % 7 else ' .' for i in range(30000)])
+    large.append(head + 'Files: *\nCopyright: 2019 x\nLicense: GPL-2+\n\nLicense: GPL-2+\n' + lic + '\n end\n')
+    cop = '\n'.join(' %d Holder number %d' % (1990 + i % 30, i) for i in range(90000))
+    large.append(head + 'Files: src/*\nCopyright: 1989 first\n' + cop + '\nLicense: MIT\n\nFiles: doc/*\nCopyright: 2001 y\nLicense: MIT\n')
+    # a Files paragraph just under 1 MiB whose rendering (continuation lines indented to the column of the value) is larger
+    n = 0
+    cl = []
+    while n < 1000000:
+        cl.append(' %d H%d' % (1990 + len(cl) % 30, len(cl)))
+        n += len(cl[-1]) + 1
+    large.append(head + 'Files: src/*\nCopyright: 1989 first\n' + '\n'.join(cl) + '\nLicense: MIT\n')
+    fails += ctx.prop('prop:render-fixpoint:large', large, p_fixpoint)
+
+    def p_types(x):
+        text, want = x
+        c = dc.DebianCopyright.from_text(text)
+        got = [type(p).__name__ for p in c.paragraphs]
+        c2 = dc.DebianCopyright.from_text(c.dumps())
+        got2 = [type(p).__name__ for p in c2.paragraphs]
+        if got != want or got2 != want:
+            return 'a document of %d characters with paragraphs %r is read as %r and, rendered, as %r' % (len(text), want, got, got2)
+        return None
+    H, F, L = 'CopyrightHeaderParagraph', 'CopyrightFilesParagraph', 'CopyrightLicenseParagraph'
+    fails += [(f[0][0][:3000], f[1]) for f in ctx.prop('prop:render-fixpoint:large:paragraph-types', [(large[-3], [H, F, L]), (large[-2], [H, F, F]), (large[-1], [H, F])], p_types)]
     fails += ctx.prop('prop:observing-changes-nothing', texts[:ctx.n(700, 8000)], _copy.p_observe)
     bad = ctx.compare('corr:copyright', [('copyright_from_text', [t]) for t in texts], _copy.impl)
     second = []
@@ -79,8 +109,13 @@ def run(ctx):
     ctx.notes.append('document theorem: its computable hypothesis holds on %d of %d generated DEP-5 documents (those are covered by the proof)'
                      % (st['hypothesis_true'], len(sample)))
     fails.sort(key=lambda f: len(f[0]))
-    for x, why in fails[:10]:
-        ctx.violation('property', 'C13 fails on the implementation: ' + why, x)
+    reported = 0
+    for x, why in fails:
+        # inputs of the recorded finding F24 are claimed by its classifier and do not count
+        if ctx.violation('property', 'C13 fails on the implementation: ' + why, x):
+            reported += 1
+            if reported >= 10:
+                break
     if bad and not ctx.violations:
         bad.sort(key=lambda b: len(repr(b[0])))
         (fn, args), iv, mv = bad[0]
